@@ -87,7 +87,7 @@ var (
 		// labels of the registry part joined by something other than a dot, or a host[:port] followed by something else
 		{S: "registry_acme_io/app"}, {S: "user@registry.acme.io/app"}, {S: "registry.acme.io:port/app"}, {S: "registry.acme.io:80:80/app"}, {S: "registry acme/app"}, {S: "reg,io/a"}, {S: "reg#io/a"},
 		{S: "reg.io:5000x/a"}, {S: "reg.io./a"}, {S: "reg.io-/a"}, {S: "reg.io /a"}}
-	namesV    = []tagged{{S: "n1", Valid: true}, {S: "n2", Valid: true}, {S: "n 3", Valid: true}, {S: "ü", Valid: true}, {S: "n5", Valid: true}, {S: "N1", Valid: true}, {S: ""}}
+	namesV    = []tagged{{S: "n1", Valid: true}, {S: "n2", Valid: true}, {S: "n 3", Valid: true}, {S: "ü", Valid: true}, {S: "n5", Valid: true}, {S: "N1", Valid: true}, {S: " ", Valid: true}, {S: "\t", Valid: true}, {S: ""}} // (a name made of white space is not the empty name)
 	versionsV = []tagged{{S: "1.0", Valid: true}, {S: ""}, {S: "2.0"}, {S: "1"}, {S: "1.0.0"}, {S: "v1.0"}}
 )
 
